@@ -24,20 +24,20 @@ checks = {
  "C16": dict(
    engine="sim_sched",
    technique="deterministic simulation: seeded thread schedules (own shuttle Scheduler) of clients sharing one SourceView, per-call check against a sequential reference model; replayable minimised schedule",
-   level=("exploration","Seeded search over thread interleavings of 2..4 client tasks (plus the main task) sharing one real SourceView whose Mutex/AtomicUsize are shuttle's, every scheduling decision taken by the harness's scheduler from VERIF_SEED; each call's result is compared with RefView (the text is immutable, so linearizability degenerates to per-call equality), panics, deadlocks and the step bound are violations, and a post-phase on the same view checks it is still usable. Sampled, not exhaustive: quick 1e6 schedules, thorough 5e7 plus Miri seeds.","§4.1"),
+   level=("exploration","Seeded search over thread interleavings of 2..4 client tasks (plus the main task) sharing one real SourceView whose Mutex/AtomicUsize are shuttle's, every scheduling decision taken by the harness's scheduler from VERIF_SEED; each call's result is compared with RefView (the text is immutable, so linearizability degenerates to per-call equality), panics, deadlocks and the step bound are violations, and a post-phase on the same view checks it is still usable. Sampled, not exhaustive: quick 1e6 schedules, thorough 5e7, a second stage with the library unoptimised and debug assertions on (5e5 / 5e6 schedules in a run domain of its own), plus Miri seeds.","§4.1"),
    note="Trusts shuttle's runtime (coroutine switching, SeqCst model of atomics) and the RefView model written from the property statement. Scheduling points are the Mutex/atomic operations of the hooked module only.",
  ),
  "C15": dict(
    engine="sim_io",
    technique="deterministic simulation, single-client (fault-free) configuration: seeded call histories on the lazily indexed SourceView checked call by call against the RefView reference model",
-   level=("exploration","Seeded histories (1..13 operations incl. clone/switch/fresh views, out-of-range and huge arguments) over generated texts with every terminator style and astral characters, executed on the shipped SourceView (guard off, overflow checks on) and compared operation by operation with RefView; probes for every slice boundary class must be non-zero. This is the sequential, fault-free configuration of the C16 simulator; there is no schedule or fault in it (DESIGN.md §4.2 says so plainly).","§4.2"),
+   level=("exploration","Seeded histories (1..13 operations incl. clone/switch/fresh views, out-of-range and huge arguments) over generated texts with every terminator style and astral characters, executed on the shipped SourceView (guard off, overflow checks on) and compared operation by operation with RefView; probes for every slice boundary class must be non-zero. A second stage repeats the search with the library unoptimised and debug assertions on, in a run domain of its own. This is the sequential, fault-free configuration of the C16 simulator; there is no schedule or fault in it (DESIGN.md §4.2 says so plainly).","§4.2"),
    note="Trusts RefView as the literal reading of the statement (split at \\r\\n, \\n, lone \\r; slices = characters whose UTF-16 units intersect [c,c+n), None if the line is shorter than c+n).",
  ),
 }
 checks["C12"] = dict(
    engine="sim_io",
    technique="deterministic simulation with fault injection over the Read seam: seeded chunking/EINTR/error/drop/dup/swap/flip/early-EOF schedules through SimReader, reader path vs slice path on the delivered bytes plus an XSSI header reference model",
-   level=("exploration","Every run delivers a stored document (fixtures, synthetic regular/index/Hermes maps from an independent emitter, non-maps, invalid, optionally damaged at rest) with a generated junk header through a seeded transport and reader (1-byte reads, splits inside the header, inside \\r\\n, exactly at the header end, around BufReader's 8192, EINTR, one hard error, dropped/duplicated/swapped chunks, bit flips, early EOF) into a reader entry point; the outcome must equal the slice entry point on the delivered bytes (both Err, or equal observational dumps), is_sourcemap must equal is_sourcemap_slice, decode_data_url(base64(D')) must equal decode_slice(D'), and for clean headers both must match a small header model (LF/CRLF skipped, bare CR rejected). A systematic single- and double-split sweep over small documents is the floor under the seeded search; boundary-cell probes must all be non-zero.","§4.3"),
+   level=("exploration","Every run delivers a stored document (fixtures, synthetic regular/index/Hermes maps from an independent emitter, non-maps, invalid, optionally damaged at rest) with a generated junk header through a seeded transport and reader (1-byte reads, splits inside the header, inside \\r\\n, exactly at the header end, around BufReader's 8192, EINTR, one hard error, dropped/duplicated/swapped chunks, bit flips, early EOF) into a reader entry point; the outcome must equal the slice entry point on the delivered bytes (both Err, or equal observational dumps), is_sourcemap must equal is_sourcemap_slice, decode_data_url(base64(D')) must equal decode_slice(D'), and for clean headers both must match a small header model (LF/CRLF skipped, bare CR rejected). A systematic single- and double-split sweep over small documents is the floor under the seeded search; boundary-cell probes must all be non-zero. A second stage repeats the search with the library unoptimised and debug assertions on, in a run domain of its own.","§4.3"),
    note="Trusts the observational dump (public accessors only), the harness's header model and base64 encoder. Error kinds are not compared. Interrupted is treated as transparent per the Read contract.",
  )
 checks["C05"] = dict(
